@@ -245,6 +245,8 @@ class Ctx:
         seen_sig = set()
         per_part = {}
         for part, cell, v in self.viol:
+            if v.get('replay_cell') is not None:      # a minimal case (e.g. one schedule) inside a multi-case cell
+                part, cell = v.get('replay_part', part), v['replay_cell']
             rec = {'property': self.pid, 'part': part, 'cell': cell, 'violation': v, 'tier': self.tier,
                    'replay_cmd': f'./check --replay <this file>'}
             blob = json.dumps(rec, sort_keys=True, default=str)
